@@ -4,7 +4,7 @@ package cacheutil
 
 // Package-internal observations for the C10 harness.  This is the ONLY C10 file that names
 // unexported identifiers of the package (TTLCache.mu, TTLCache.m, TTLCache.evictLocked,
-// refCounter.v, LRUCache.mu, LRUCache.cache).  If it stops compiling the check falls back to
+// refCounter.v, refCounterWithTimer.t, LRUCache.mu, LRUCache.cache).  If it stops compiling the check falls back to
 // zz_verif_c10noshim_test.go.
 
 const verifC10HasShim = true
@@ -14,6 +14,27 @@ func verifC10Expire(c *TTLCache, key string) {
 	c.mu.Lock()
 	defer c.mu.Unlock()
 	c.evictLocked(key)
+}
+
+// verifC10FireTimer makes the PRODUCTION timer of the entry cached under key fire now
+// (Timer.Reset(0) on the entry's own *time.Timer): the expiry then runs on the timer goroutine
+// through whatever function the tree under test handed to time.AfterFunc - not through a copy of
+// it.  `gone` reports (without side effects) whether that entry has left c.m or was replaced.
+// armed=false: the key is not cached (nothing to fire).
+func verifC10FireTimer(c *TTLCache, key string) (gone func() bool, armed bool) {
+	c.mu.Lock()
+	rc, ok := c.m[key]
+	c.mu.Unlock()
+	if !ok {
+		return nil, false
+	}
+	rc.t.Reset(0)
+	return func() bool {
+		c.mu.Lock()
+		defer c.mu.Unlock()
+		cur, ok := c.m[key]
+		return !ok || cur != rc
+	}, true
 }
 
 func verifC10TTLLen(c *TTLCache) (int, bool) {
